@@ -88,13 +88,24 @@ theorem frame_sSet (k : Key) (st : Store) (v : Val) : Frame k st (sSet st k v) :
 theorem frame_sErase (k : Key) (st : Store) : Frame k st (sErase st k) := by
   intro k' hk; simp [sGet_sErase, hk]
 
+theorem mem_of_mem_fit (sized : Bool) (cap : Nat) : ∀ (acc : Nat) (l : List (Key × Val)) {p : Key × Val},
+    p ∈ fit sized cap acc l → p ∈ l
+  | _, [], _, h => by simp [fit] at h
+  | acc, e :: es, p, h => by
+    simp only [fit] at h
+    split at h
+    · rcases List.mem_cons.1 h with h | h
+      · subst h; exact List.mem_cons_self ..
+      · exact List.mem_cons_of_mem _ (mem_of_mem_fit sized cap _ es h)
+    · cases h
+
 theorem mem_cSet {c : Cache} {k : Key} {v : Val} {p : Key × Val} (h : p ∈ (cSet c k v).ents) :
     p = (k, v) ∨ (p ∈ c.ents ∧ p.1 ≠ k) := by
   unfold cSet at h
   simp only at h
   have h' : p ∈ (k, v) :: sErase c.ents k := by
     split at h
-    · exact List.mem_of_mem_take h
+    · exact mem_of_mem_fit _ _ _ _ h
     · exact h
   rcases List.mem_cons.1 h' with e | e
   · exact Or.inl e
@@ -224,14 +235,25 @@ theorem callUpd_spec {c c1 : Ctx} {k : Key} {v e0 : Val} {r : Except Err Val} (h
     · cases h; exact mutSpec_fail hc.1 hc.2
     · cases h; exact mutSpec_set hc.1 hc.2 rfl
 
-theorem callUpsert_spec {c c1 : Ctx} {k : Key} {v : Val} {e0 : Option Val} {r : Except Err Val}
-    (h : callUpsert c k v e0 = (r, c1)) : MutSpec k c c1 r := by
+/-- upsert handed the existing item: the full contract -/
+theorem callUpsert_spec {c c1 : Ctx} {k : Key} {v e0 : Val} {r : Except Err Val}
+    (h : callUpsert c k v (some e0) = (r, c1)) : MutSpec k c c1 r := by
   have hc := call_store c .upsert
   unfold callUpsert at h
   simp only at h
   split at h
   · cases h; exact mutSpec_fail hc.1 hc.2
   · cases h; exact mutSpec_set hc.1 hc.2 rfl
+
+/-- upsert without the existing item may return a partial row: only the frame is guaranteed -/
+theorem callUpsert_frame {c c1 : Ctx} {k : Key} {v : Val} {e0 : Option Val} {r : Except Err Val}
+    (h : callUpsert c k v e0 = (r, c1)) : c1.cache = c.cache ∧ Frame k c.store c1.store := by
+  have hc := call_store c .upsert
+  unfold callUpsert at h
+  simp only at h
+  split at h
+  · cases h; exact ⟨hc.2, by rw [hc.1]; exact Frame.refl _ _⟩
+  · split at h <;> cases h <;> exact ⟨hc.2, by simp only [hc.1]; exact frame_sSet _ _ _⟩
 
 theorem callDel_spec {c c1 : Ctx} {k : Key} {r : Except Err Unit} (h : callDel c k = (r, c1)) :
     c1.cache = c.cache ∧ Frame k c.store c1.store ∧
